@@ -49,3 +49,13 @@ Print Assumptions finished_in_time_not_killed.
 Example grandchild_tree_cleaned :
   pexec true (PRunning (mkPg true 0)) [LFork; LFork; LMemberExits; LLeaderExits] = PDone (mkPg false 0) false false.
 Proof. reflexivity. Qed.
+
+(** whichever of the two waiters reaps the killed leader, the evaluation over its limit (or
+    aborted) is rejected -- it never turns into a failure of the run *)
+Example reap_shape : reap_tolerates_echild = true.  Proof. reflexivity. Qed.
+Theorem killed_evaluation_is_rejected_whoever_reaps :
+  forall r, reap_outcome reap_tolerates_echild r = ARejected.
+Proof. intros []; reflexivity. Qed.
+Print Assumptions killed_evaluation_is_rejected_whoever_reaps.
+Example intolerant_reap_fails : reap_outcome false ReapedByCollector = AFailedToReap.
+Proof. reflexivity. Qed.
